@@ -14,6 +14,7 @@ import (
 	"sync/atomic"
 
 	"verif/harness/internal/core"
+	"verif/harness/internal/gen"
 	"verif/harness/internal/spec"
 )
 
@@ -64,13 +65,15 @@ func c13Policies(ctx *core.Ctx) [][]spec.Op {
 	for i := 0; i < 3; i++ {
 		pols = append(pols, heavy(ctx.StreamRand(fmt.Sprintf("heavy-policy-%d", i))))
 	}
+	// every default CSS handler, data URIs, patterns, rewriter: reaches package-level state in css/handlers.go and helpers.go
+	pols = append(pols, everythingPolicy())
 	return pols
 }
 
 var raceBlockRe = regexp.MustCompile(`(?s)WARNING: DATA RACE.*?==================`)
 
 func runC13(ctx *core.Ctx) {
-	ctx.Rule = "6 shared policies (Strict, UGC, html-email, 3 generated with overlapping element patterns, style rules in all scopes, URL callbacks, rewriter) x a small input set x 64 goroutines x rounds, all entry points, binary built with -race (GORACE halt_on_error=0, reports read back from log_path); oracle: zero race reports touching bluemonday or its dependencies, every concurrent result equals the sequential baseline, repeated sequential calls agree (map-order independence), the baseline recomputed after the stress is unchanged, the reflection fingerprint of the policy is unchanged; non-trivial = a (policy, input) pair executed concurrently with a non-empty result, distinct by pair"
+	ctx.Rule = "7 shared policies (Strict, UGC, html-email, 3 generated with overlapping element patterns, style rules in all scopes, URL callbacks, rewriter, and one with every default CSS handler) x a small input set x 64 goroutines x rounds, all entry points, binary built with -race (GORACE halt_on_error=0, reports read back from log_path); oracle: zero race reports touching bluemonday or its dependencies, every concurrent result equals the sequential baseline, repeated sequential calls agree (map-order independence), the baseline recomputed after the stress is unchanged, the reflection fingerprint of the policy is unchanged; non-trivial = a (policy, input) pair executed concurrently with a non-empty result, distinct by pair"
 	ctx.Assume("the race detector generalises each executed interleaving by happens-before analysis but only over executed code; its shadow history is bounded, repeats compensate")
 	if !raceEnabled() && !ctx.Replaying {
 		ctx.Inconclusive("the monitor binary was not built with -race")
@@ -167,8 +170,16 @@ func c13Stress(ctx *core.Ctx, only int) {
 		env := NewEnv(pols[cs.Index])
 		r := cs.R
 		inputs := make([]string, nIn)
+		pool := gen.CSSTokenPool()
 		for i := range inputs {
 			inputs[i] = env.HostileInput(r)
+			if cs.Index == 6 && i%2 == 0 { // the all-handlers policy: style-heavy inputs over all documented properties
+				var b strings.Builder
+				for k := 0; k < 1+r.Intn(5); k++ {
+					fmt.Fprintf(&b, "%s: %s %s; ", gen.CSSProperties[r.Intn(len(gen.CSSProperties))], pool[r.Intn(len(pool))], pool[r.Intn(len(pool))])
+				}
+				inputs[i] = `<span style="` + gen.CanonEscape(b.String()) + `">x</span><a href="http://example.org/?a=1" rel="x">y</a>`
+			}
 			if len(inputs[i]) > 1500 {
 				inputs[i] = inputs[i][:1500]
 			}
